@@ -779,6 +779,33 @@ def _check_terminator(ix, rep, f, rule='R-GRAM'):
     knows_line = knows_block = False
     line_term = set()
     how = None
+    # (e) the lexer itself is asked for the last token: exact by construction
+    lexes = []
+    scope = [f] + [g for g in (ix.resolve_method(f.owner, c.func.attr) for c in ast.walk(f.node)
+                               if isinstance(c, ast.Call) and isinstance(c.func, ast.Attribute) and isinstance(c.func.value, ast.Name) and c.func.value.id == 'self') if g is not None]
+    for g in scope:
+        builds_lexer = any(isinstance(c, ast.Call) and ast.unparse(c.func) == 'self.antrlLexerType' for c in ast.walk(g.node))
+        walks_tokens = any(isinstance(c, ast.Call) and isinstance(c.func, ast.Attribute) and c.func.attr in ('nextToken', 'getAllTokens', 'fill') for c in ast.walk(g.node))
+        if builds_lexer and walks_tokens and g is not f:
+            lexes.append(g)
+    cmp_text = any(isinstance(c, ast.Compare) and any(isinstance(x, ast.Attribute) and x.attr == 'text' for x in ast.walk(c))
+                   and any(isinstance(x, ast.Constant) and x.value == ';' for x in ast.walk(c)) for c in ast.walk(f.node))
+    if lexes and cmp_text:
+        g = lexes[0]
+        listener = any('parserErrorListenerType' in ast.unparse(n) and isinstance(n, ast.Assign) for n in ast.walk(g.node))
+        if listener:
+            rep.ok(rule, f.module.rel, f.qual, slot, 'the lexer is asked for the last token (%s): white space, comments and `//` inside identifiers are handled exactly as in the parse proper; '
+                   'its errors go to the raising listener' % g.qual, appends[0].lineno)
+        else:
+            rep.fail(rule, f.module.rel, f.qual, slot + ':listener', 'the auxiliary lexer run (%s) keeps the console listener: an illegal character is printed and skipped there' % g.qual, g.node.lineno)
+        return
+    ident_chars = set()
+    lxg = G.load(ix.repo)['LtlLexer']
+    for rn in ('IdentifierPart', 'IdentifierStart', 'Identifier'):
+        for alt in lxg.rules.get(rn, []):
+            for e in alt.flat():
+                if e[0].kind == 'lit':
+                    ident_chars |= set(e[0].value)
     if regexes:
         import re._parser as sre
         n, pat = regexes[0]
@@ -850,6 +877,9 @@ def _check_terminator(ix, rep, f, rule='R-GRAM'):
                       'is accepted -- the omitted final ";" changes the result' % how))
     if block and not knows_block:
         probs.append(('block-comment', 'the lexer skips `/* ... */` comments but the test (%s) does not: `phi; /* c */` gets a second ";" and is rejected' % how))
+    if knows_line and '/' in ident_chars:
+        probs.append(('identifier-slash', 'the test takes every `//` for the start of a comment, but `/` may occur inside an identifier (`robot//speed` is one token): the ";" is inserted '
+                      'in front of the rest of the line, which the lexer then skips as a comment -- trailing garbage and illegal characters are silently accepted'))
     if knows_line and term and not term <= line_term:
         probs.append(('line-comment-end', 'a `//` comment ends at %s in the lexer but the test lets it run past %s' % (sorted(term), sorted(term - line_term))))
     for key, text in probs:
